@@ -468,6 +468,58 @@ func runC13(r *vk.Run) {
 			c.Sample("scalars", det)
 		}
 	})
+	// set operators around sub-expressions that contain a number literal, and explicitly signed
+	// exponents: three operands, two operators of different levels, so neither associativity nor
+	// finding F13 plays a part and the conventional reading is the only one
+	setOps3 := []string{"and", "or", "unless"}
+	r.Phase("mixed", r.N(2000, 200000), func(c *vk.Case) {
+		rng := c.Rng
+		t := vk.Pick(rng, tuples)
+		a, b, cc := t[rng.Intn(5)], t[rng.Intn(5)], t[rng.Intn(5)]
+		va, vb, vc := ov{true, a}, ov{true, b}, ov{true, cc}
+		A := vk.Pick(rng, arithCmp)
+		S := vk.Pick(rng, setOps3)
+		vec := func(x float64) string { return "vector(" + fnum(x) + ")" }
+		var text string
+		var want ov
+		shape := rng.Intn(9)
+		switch shape {
+		case 0:
+			text, want = vec(a)+" "+A+" "+fnum(b)+" "+S+" "+vec(cc), c13Apply(S, c13Apply(A, va, vb, mode), vc, mode)
+		case 1:
+			text, want = vec(a)+" "+S+" "+vec(b)+" "+A+" "+fnum(cc), c13Apply(S, va, c13Apply(A, vb, vc, mode), mode)
+		case 2:
+			text, want = "("+vec(a)+" "+A+" "+fnum(b)+") "+S+" "+vec(cc), c13Apply(S, c13Apply(A, va, vb, mode), vc, mode)
+		case 3:
+			text, want = vec(a)+" "+S+" ("+vec(b)+" "+A+" "+fnum(cc)+")", c13Apply(S, va, c13Apply(A, vb, vc, mode), mode)
+		case 4:
+			text, want = fnum(a)+" "+A+" "+vec(b)+" "+S+" "+vec(cc), c13Apply(S, c13Apply(A, va, vb, mode), vc, mode)
+		case 5:
+			text, want = vec(a)+" "+S+" "+fnum(b)+" "+A+" "+vec(cc), c13Apply(S, va, c13Apply(A, vb, vc, mode), mode)
+		default:
+			// a signed literal as exponent, followed or preceded by a multiplicative operator
+			M := vk.Pick(rng, []string{"*", "/", "%"})
+			sign := vk.Pick(rng, []string{"-", "+"})
+			e := vk.Pick(rng, []float64{1, 2, 3})
+			ev := e
+			if sign == "-" {
+				ev = -e
+			}
+			if shape%2 == 0 {
+				text, want = vec(a)+" ^ "+sign+fnum(e)+" "+M+" "+vec(cc), c13Apply(M, c13Apply("^", va, ov{true, ev}, mode), vc, mode)
+			} else {
+				text, want = vec(a)+" "+M+" "+vec(b)+" ^ "+sign+fnum(e), c13Apply(M, va, c13Apply("^", vb, ov{true, ev}, mode), mode)
+			}
+		}
+		got, err := c13Engine(c, text)
+		if err != nil || !ovEqual(got, want) {
+			c.Fail("", fmt.Sprintf("%s = %s (err=%v), conventional reading gives %s", text, got, err, want), map[string]any{"query": text, "expected": want.String(), "engine": got.String(), "shape": shape})
+			return
+		}
+		c.Count("mixed_chains", 1)
+		c.Seen("mixed_shapes", fmt.Sprint(shape))
+	})
+	r.Require("mixed_chains", 1000)
 	r.Require("scalar_chains", 800)
 	r.Require("chains", 400)
 	r.Require("nontrivial_chains", 200)
